@@ -25,7 +25,8 @@ ASSUMPTIONS = ["Fixnum::build_with_checked fails exactly for values outside the 
 ALLOC_RX = re.compile(r"IBig as arena::AllocateInArena<dashu::integer::IBig>>::arena_allocate$")
 FIT_RX = re.compile(
     r"(ast::Fixnum::build_with_checked$|<i64 as std::convert::TryFrom<.*>>::try_from$|std::convert::TryInto::try_into$|"
-    r"<.* as std::convert::TryInto<i64>>::try_into$|i64::from_str_radix$|num::<impl i64>::from_str_radix$|RangeInclusive::<.*>::contains$|RangeInclusive<.*>::contains$)"
+    r"<.* as std::convert::TryInto<i64>>::try_into$|i64::from_str_radix$|num::<impl i64>::from_str_radix$|RangeInclusive::<.*>::contains$|RangeInclusive<.*>::contains$|"
+    r"ops::Range::<.*>::contains$|ops::Range<.*>::contains$|range::Range::<.*>::contains$|range::Range<.*>::contains$)"
 )
 FAIL_CLOSURE_METHODS = {"unwrap_or_else", "or_else", "map_err", "ok_or_else"}
 
